@@ -303,8 +303,15 @@ func c03RunMode(t *testing.T, p c03Plan, mode string) (res vfResult) {
 				listed := make(chan struct{})
 				go func() { defer close(listed); vfList(r) }()
 				if !vfRealWait(listed, 5*time.Second) {
-					res.failf("blocked-behind-drain", "cmd=%s at %v drain-timeout=%v: `list`, issued while the command was draining, had not returned after 5 s of real time (no virtual time passes for a read)", p.Cmd, tc, drain)
-					return
+					// real time only prompts the look: the verdict is that `list` sits queued on one of the proxy's locks
+					if _, ev := vfQueuedOnProxyLock(false, "ListActiveServices"); ev != "" {
+						res.failf("blocked-behind-drain", "cmd=%s at %v drain-timeout=%v: `list`, issued while the command was draining, is queued on a lock of the proxy (it has to answer without waiting for the other command):\n%s", p.Cmd, tc, drain, ev)
+						return
+					}
+					if !vfRealWait(listed, 60*time.Second) {
+						res.Excluded = "`list` did not return within 65 s of real time although it is not queued on a lock (inconclusive)"
+						return
+					}
 				}
 				res.label("list-answered-while-draining")
 			}
